@@ -76,6 +76,10 @@ pub struct ScenarioC7 {
     pub close_rx_at: Option<u64>,
     /// true: end with ExecutionRequest::Shutdown, false: close the request channel
     pub explicit_shutdown: bool,
+    /// clock jump / stalled node: at virtual instant `.0` the clock leaps forward by `.1` ms, so
+    /// everything due inside the window becomes ready at once
+    #[serde(default)]
+    pub jump: Option<(u64, u64)>,
 }
 
 pub struct SimC7;
@@ -172,6 +176,11 @@ impl Sim for SimC7 {
                 None
             },
             explicit_shutdown: rng.chance(1, 2),
+            jump: if sub == 1 && rng.chance(1, 5) {
+                Some((rng.below(t + timeout_ms + 1), *rng.pick(&[1u64, timeout_ms / 2 + 1, timeout_ms, 2 * timeout_ms, 1000])))
+            } else {
+                None
+            },
         }
     }
 
@@ -187,7 +196,8 @@ impl Sim for SimC7 {
         let last_send = reqs.iter().map(|r| r.at_ms).max().unwrap_or(0);
 
         let rt = paused_runtime(sc.tokio_seed);
-        let (got, received, manager_result, end_ms): (Vec<Got>, Vec<RecvReq>, Result<(), String>, u64) =
+        let jump = if sc.close_rx_at.is_some() { None } else { sc.jump };
+        let (got, received, manager_result, end_ms, sent_at): (Vec<Got>, Vec<RecvReq>, Result<(), String>, u64, Vec<u64>) =
             rt.block_on(async {
                 let start = tokio::time::Instant::now();
                 let behav: HashMap<String, Behav> = reqs
@@ -242,9 +252,18 @@ impl Sim for SimC7 {
                     got
                 });
 
+                // fault: the clock leaps forward (stalled node / clock jump)
+                if let Some((at, by)) = jump {
+                    tokio::spawn(async move {
+                        tokio::time::sleep_until(start + Duration::from_millis(at)).await;
+                        tokio::time::advance(Duration::from_millis(by)).await;
+                    });
+                }
                 // driver: pushes the requests at their virtual instants
+                let mut sent_at: Vec<u64> = Vec::new();
                 for (k, r) in reqs.iter().enumerate() {
                     tokio::time::sleep_until(start + Duration::from_millis(r.at_ms)).await;
+                    sent_at.push(start.elapsed().as_millis() as u64);
                     let key = okey(0, r.inst, &format!("r{k}"));
                     let req = if r.open {
                         ExecutionRequest::Open(request_open(key, true, dec(100), dec(2), OrderKind::Limit))
@@ -256,7 +275,17 @@ impl Sim for SimC7 {
                     }
                 }
                 // every outstanding request must be resolved by (last send + timeout)
-                tokio::time::sleep_until(start + Duration::from_millis(last_send + timeout + 3)).await;
+                let last_actual = sent_at.iter().copied().max().unwrap_or(0).max(last_send);
+                tokio::time::sleep_until(start + Duration::from_millis(last_actual + timeout + 3)).await;
+                // a leap may land between the send and the manager picking the request up; the
+                // timeout runs from the pick-up (= the instant the client is called)
+                let last_recv = client.0.received.lock().unwrap().iter().map(|x| x.at_ms).max().unwrap_or(0);
+                tokio::time::sleep_until(start + Duration::from_millis(last_recv + timeout + 3)).await;
+                if jump.is_some() {
+                    // the waits above may themselves have been swallowed by the leap: let the
+                    // manager run at the landing instant before shutting it down
+                    tokio::time::sleep(Duration::from_millis(3)).await;
+                }
                 if sc.explicit_shutdown {
                     let _ = req_tx.send(ExecutionRequest::Shutdown);
                 } else {
@@ -271,7 +300,7 @@ impl Sim for SimC7 {
                 };
                 let got = collector.await.unwrap_or_default();
                 let received = client.0.received.lock().unwrap().clone();
-                (got, received, manager_result, start.elapsed().as_millis() as u64)
+                (got, received, manager_result, start.elapsed().as_millis() as u64, sent_at)
             });
         drop(rt);
         stats.sim_time_ms = end_ms.min(last_send + timeout + 10);
@@ -296,6 +325,9 @@ impl Sim for SimC7 {
             }
             if sc.close_rx_at.is_some() {
                 stats.fault("response_receiver_dropped");
+            }
+            if jump.is_some() {
+                stats.fault("clock_jump");
             }
             if reqs.len() >= 64 {
                 stats.probe("64_outstanding");
@@ -344,12 +376,35 @@ impl Sim for SimC7 {
                         _ => false,
                     })
                     .collect();
-                // when must it be resolved, and how
-                let (resolve_at, by_client): (u64, Option<bool>) = match r.behav.delay_ms {
-                    Some(d) if d < timeout => (r.at_ms + d, Some(true)),
-                    Some(d) if d == timeout => (r.at_ms + timeout, None),
-                    _ => (r.at_ms + timeout, Some(false)),
+                // when must it be resolved, and how (measured from the instant it was actually sent)
+                let s_at = received
+                    .iter()
+                    .find(|x| x.cid == cid)
+                    .map(|x| x.at_ms)
+                    .unwrap_or_else(|| sent_at.get(k).copied().unwrap_or(r.at_ms));
+                let (mut resolve_at, mut by_client): (u64, Option<bool>) = match r.behav.delay_ms {
+                    Some(d) if d < timeout => (s_at + d, Some(true)),
+                    Some(d) if d == timeout => (s_at + timeout, None),
+                    _ => (s_at + timeout, Some(false)),
                 };
+                let mut resolve_alt: Option<u64> = None;
+                if let Some((j, by)) = jump {
+                    let in_window = |t: u64| t > j && t <= j + by;
+                    // a late response that became ready inside the same leap as the deadline: the
+                    // statement cannot order them, either outcome is accepted
+                    if let (Some(false), Some(d)) = (by_client, r.behav.delay_ms) {
+                        if in_window(s_at + timeout) && s_at + d <= j + by {
+                            by_client = None;
+                        }
+                    }
+                    if in_window(resolve_at) {
+                        resolve_at = j + by;
+                        stats.probe("resolution_inside_clock_jump");
+                    } else if resolve_at == j {
+                        // exactly at the leap instant: before or after the leap
+                        resolve_alt = Some(j + by);
+                    }
+                }
                 if let Some(c) = sc.close_rx_at {
                     if resolve_at >= c {
                         // the consumer went away before this request resolves: nothing observable
@@ -368,7 +423,7 @@ impl Sim for SimC7 {
                     continue;
                 }
                 let g = mine[0];
-                if g.at_ms != resolve_at {
+                if g.at_ms != resolve_at && Some(g.at_ms) != resolve_alt {
                     fail!('chk, "E3_event_time", k, "request {cid} sent at {} ms (delay {:?}, timeout {timeout}): event at {} ms, expected {resolve_at} ms", r.at_ms, r.behav.delay_ms, g.at_ms);
                 }
                 let AccountStreamEvent::Item(ev) = &g.ev else { continue };
@@ -463,6 +518,11 @@ impl Sim for SimC7 {
             s.close_rx_at = None;
             out.push(s);
         }
+        if sc.jump.is_some() {
+            let mut s = sc.clone();
+            s.jump = None;
+            out.push(s);
+        }
         if sc.reqs.iter().any(|r| r.at_ms != 0) {
             let mut s = sc.clone();
             s.reqs.iter_mut().for_each(|r| r.at_ms = 0);
@@ -508,6 +568,7 @@ impl Sim for SimC7 {
             "response_at_timeout_instant",
             "client_error_response",
             "response_receiver_dropped",
+            "clock_jump",
         ]
     }
     fn probe_kinds(&self) -> Vec<&'static str> {
@@ -516,6 +577,7 @@ impl Sim for SimC7 {
             "response_at_timeout_instant",
             "64_outstanding",
             "several_responses_same_instant",
+            "resolution_inside_clock_jump",
         ]
     }
     fn assumptions(&self) -> Vec<String> {
